@@ -181,6 +181,9 @@ class NatSpec(object):
             g = g * int(n_) + int(i)
         return g
 
+    def unrowmajor(self, g, sizes):
+        return [int(t) for t in np.unravel_index(int(g), tuple(int(x) for x in sizes))]
+
     def sort_rank(self, arr):
         return np.argsort(np.argsort(np.asarray(arr), kind="stable"), kind="stable")
 
